@@ -3,7 +3,7 @@
 and writes mutants/RESULTS.md.   tools/run_mutants.py [name-substring ...]"""
 import os, sys, re, subprocess
 HERE = os.path.dirname(os.path.dirname(os.path.abspath(__file__)))
-extra = {'revert_fix_dispatch_eval_order': ['C04', 'C20'], 'revert_fix_uninit_queue_counters': ['C10', 'C20'], 'c02_freenode_clears_links': ['C02', 'C03'], 'c03_spinlock_unlock_noop': ['C03', 'C02']}
+extra = {'revert_fix_getevent_reference_detection': ['C04'], 'revert_fix_heter_queue_nonconst_ref_prototype': ['C14'], 'revert_fix_heter_include_forward_into_getevent': ['C14'], 'revert_fix_dispatch_eval_order': ['C04', 'C20'], 'revert_fix_uninit_queue_counters': ['C10', 'C20'], 'c02_freenode_clears_links': ['C02', 'C03'], 'c03_spinlock_unlock_noop': ['C03', 'C02']}
 rows = []
 for f in sorted(os.listdir(os.path.join(HERE, 'mutants'))):
     if not f.endswith('.diff'): continue
